@@ -67,9 +67,10 @@
    expression above and is compared with the binary's CSV and the model's CSV on every run. *)
 From Coq Require Import ZArith List Bool.
 From Coq Require Import QArith.
-From Knut Require Import Model.Str Model.Dec Model.Date Model.Account Model.Ledger Model.Table Model.Report Model.Cli Spec.LedgerSpec
+From Knut Require Import Model.Str Model.Dec Model.Date Model.Account Model.Ledger Model.Journal Model.Pipeline Model.Table Model.Report Model.Cli Spec.LedgerSpec
      Spec.LedgerSyntax Spec.BalanceTableSpec Proofs.DecValue Proofs.LedgerProofs Proofs.CloseProofs Proofs.LayoutProofs
-     Proofs.BalanceTableLayout Proofs.BalanceTableTree Proofs.BalanceTableCells Proofs.BalanceTableTotals.
+     Proofs.BalanceTableLayout Proofs.BalanceTableTree Proofs.BalanceTableCells Proofs.BalanceTableTotals
+     Proofs.BalanceTableDates Proofs.BalanceTableLines.
 Import ListNotations.
 Open Scope Z_scope.
 
@@ -326,6 +327,92 @@ Theorem C02_table_cells_render : forall rc p a neg_ oc dates,
   forall d, (dvalue (ra_get0 (shown_vals rc p a) (Some d, oc)) == ReportSum.esum (collapse_key (show_of rc p)) (Some d, oc) a)%Q.
 Proof. exact table_cells_render. Qed.
 Print Assumptions C02_table_cells_render.
+
+(* ------------------------------------------------------------------ which commodity lines *)
+
+(* The close-stage date lemma: CloseAccounts (Model/Pipeline.v close_proc, for ANY state and any
+   days) returns every day as it is or, on a closing day, with closing transactions of that date
+   appended: a dated posting that leaves the stage entered it or is dated on a closing day. *)
+Theorem C02_close_stage_dates : forall cds ds s s' ds',
+  process_days (close_proc cds) s ds = ROk (s', ds') ->
+  forall dp, In dp (days_postings ds') -> In dp (days_postings ds) \/ In (fst dp) cds.
+Proof. exact close_days_dates. Qed.
+Print Assumptions C02_close_stage_dates.
+
+(* The keys of the report: every amount is stored under (end date of a shown period, commodity).
+   A cell under the zero date (Partition.Align of a date after the last period), under a date
+   that is not a column of the table, or under the nil commodity is zero in every row.  With
+   --close this rests on C02_close_stage_dates: the closing days are the period starts, and a
+   period start is aligned to the end of its own period (an empty window closes nothing). *)
+Theorem C02_report_keys : forall cfg ds r part,
+  bc_valuation cfg = None ->
+  balance_report cfg ds = COk (r, part) ->
+  forall row od oc,
+    ~ (exists col c, od = Some col /\ oc = Some c /\ In col (end_dates part)) ->
+    (rcell row (od, oc) r == 0)%Q.
+Proof. exact report_key_dates. Qed.
+Print Assumptions C02_report_keys.
+
+(* (2) The criterion for a commodity line, both directions.  The renderer (Report.v render_node:
+   ra_sum_into drops the zero amounts, ra_commodities lists the commodities of the keys that are
+   left) lists commodity c in the block of an account iff the account has a non-zero amount under
+   SOME stored key (date, c) -- not: a non-zero cell, nor a non-zero cumulated number.  By
+   C02_report_keys the stored dates are the columns, so: iff the ledger has a non-zero PERIOD
+   amount for (account, c) in some column of the table.  (A commodity whose period amounts are
+   +5 and -5 in two columns is listed although its last cumulative cell is 0; a commodity booked
+   +5 and -5 inside one period is not listed.)  The block is then block_ok as in C02_table_cells. *)
+Theorem C02_commodity_line_iff : forall cfg ds r part,
+  bc_valuation cfg = None ->
+  balance_report cfg ds = COk (r, part) ->
+  exists dl,
+    parse_directives ds = MOk dl /\
+    (postings_syntactic dl ->
+     let rc := balance_render_cfg cfg in
+     let dates := end_dates part in
+     let es := ledger_entries cfg dl part in
+     forall row a, In (row, a) (account_rows rc r) ->
+       exists coms,
+         coms_sorted coms /\
+         (forall c, In c coms <-> exists col, In col dates /\ ~ (dvalue (period_amount es (acc_eqb row) c col) == 0)%Q) /\
+         block_ok (tw rc dates) (last row []) (name_indent row) coms
+                  (fun c => cell_amounts (bc_diff cfg) (negb (is_AL row)) es (acc_eqb row) c dates dec_nil)
+                  (acct_lines rc dates row a)).
+Proof. exact commodity_line_iff. Qed.
+Print Assumptions C02_commodity_line_iff.
+
+(* (1) The commodity lines of the three total rows.  Total (A+L) lists, ascending, exactly the
+   commodities with a non-zero period amount over all A/L accounts in some column; Total (E+I+E)
+   the same over all other accounts; Delta lists the UNION of the two lists (Amounts.Plus drops
+   nothing), also where its numbers are zero (C01).  Each row is block_ok: a single name line when
+   the list is empty, else one line per commodity with the numbers of C02_table_totals. *)
+Theorem C02_total_lines : forall cfg ds r part dl,
+  bc_valuation cfg = None ->
+  balance_report cfg ds = COk (r, part) ->
+  parse_directives ds = MOk dl ->
+  postings_syntactic dl ->
+  let rc := balance_render_cfg cfg in
+  let es := ledger_entries cfg dl part in
+  let dates := end_dates part in
+  let total_al := node_totals (total_key rc) (sorted_al rc r) [] in
+  let total_eie := node_totals (total_key rc) (sorted_eie rc r) [] in
+  exists coms_al coms_eie coms_delta,
+    (coms_sorted coms_al /\
+     (forall c, In c coms_al <-> exists col, In col dates /\ ~ (dvalue (period_amount es is_AL c col) == 0)%Q) /\
+     block_ok (tw rc dates) s_TotalAL 0 coms_al
+              (fun c => cell_amounts (bc_diff cfg) false es is_AL c dates dec_nil)
+              (line_rows rc dates 0 s_TotalAL false total_al)) /\
+    (coms_sorted coms_eie /\
+     (forall c, In c coms_eie <-> exists col, In col dates /\ ~ (dvalue (period_amount es (fun a => negb (is_AL a)) c col) == 0)%Q) /\
+     block_ok (tw rc dates) s_TotalEIE 0 coms_eie
+              (fun c => cell_amounts (bc_diff cfg) true es (fun a => negb (is_AL a)) c dates dec_nil)
+              (line_rows rc dates 0 s_TotalEIE true total_eie)) /\
+    (coms_sorted coms_delta /\
+     (forall c, In c coms_delta <-> In c coms_al \/ In c coms_eie) /\
+     block_ok (tw rc dates) s_Delta 0 coms_delta
+              (fun c => cell_amounts (bc_diff cfg) false es (fun _ => true) c dates dec_nil)
+              (line_rows rc dates 0 s_Delta false (ra_plus total_al total_eie))).
+Proof. exact total_lines_listed. Qed.
+Print Assumptions C02_total_lines.
 
 (* non-vacuity: a journal over four months with --close.  Income of January (-1000) is carried to
    Equity:Equity at the start of February, income and expenses of February (-1000 + 200) at the
